@@ -16,6 +16,11 @@ func genC12(d *RunDesc, tier string) {
 	d.MapPolicy = []int{simrt.MapCanonical, simrt.MapReversed, simrt.MapPermuted, simrt.MapPermuted}[wl.intn(4)]
 	d.Sched.Policy = simrt.PolicyNone
 	ops := []Op{{K: "nils"}, {K: "fresh"}}
+	if d.RunIndex%400 == 7 {
+		// complete enumeration of the shortest inputs: every one-byte string and
+		// every two-byte string over the characters that matter to the parsers
+		ops = append(ops, Op{K: "bytesweep"})
+	}
 	n := wl.between(4, 16)
 	big := tier == "thorough"
 	slot := 1
@@ -275,6 +280,45 @@ func runC12(d *RunDesc, res *RunResult) {
 					res.Stats.count("decfail:" + errSentinels(s.err))
 				}
 				cc.caseKey("dec|" + op.Vec + "|" + strconv.Itoa(op.Kind) + "|" + strconv.FormatBool(op.NilRecv))
+			case "bytesweep":
+				var inputs []string
+				for b := 0; b < 256; b++ {
+					inputs = append(inputs, string([]byte{byte(b)}))
+				}
+				alpha := []byte("()[]{}:/.,;-_ \t\n\x00\xff\x80ACVNSaX3012#%\"'\\")
+				for _, a := range alpha {
+					for _, b := range alpha {
+						inputs = append(inputs, string([]byte{a, b}))
+					}
+				}
+				for _, in := range inputs {
+					for k := 0; k < NKinds; k++ {
+						for _, nr := range []bool{false, true} {
+							in, k, nr := in, k, nr
+							r := guard(func() string {
+								s := doDecode(k, nr, in)
+								if !isNilObj(s.res) && s.err != nil {
+									return "both"
+								}
+								if isNilObj(s.res) && s.err == nil {
+									return "neither"
+								}
+								return "ok"
+							})
+							what := fmt.Sprintf("%s.Decode(%s) nilrecv=%v", kindNames[k], strconv.Quote(in), nr)
+							switch {
+							case isPanic(r):
+								res.addViolation("panic:dec:"+panicFrame(r), what+": "+r, 0, i)
+							case r == "both":
+								res.addViolation("both:"+kindNames[k], what+": returned an object and an error", 0, i)
+							case r == "neither":
+								res.addViolation("neither:"+kindNames[k], what+": returned neither object nor error", 0, i)
+							}
+						}
+					}
+				}
+				res.Stats.count("byte-sweeps")
+				res.Stats.Counters["byte-sweep-decodes"] += len(inputs) * NKinds * 2
 			case "redec":
 				sl := ctx.slot(op.Obj)
 				if sl == nil || isNilObj(sl.current()) {
